@@ -33,7 +33,7 @@ func (world) Level() string    { return "fault_enumeration" }
 
 func (world) Describe() super.Description {
 	return super.Description{
-		Rule:        "A case = (expression string, simulated data tree, context node) drawn from one tape: 60% grammar-directed tree-aware expressions, 30% the same damaged by byte/token operators, 10% raw byte/token strings. The string is offered to all five machine constructors (expr, expr+custom functions, path_eval, path_eval+custom+user checker, leafref) with nil / working / failing prefix-map callbacks. Every machine that builds is run fault-free against the FaultTree to learn N = number of data-tree callbacks, then once per k in 1..N with exactly the k-th callback failing (exhaustive single-fault enumeration for that case), then with tape-drawn multi-fault sets. distinct_nontrivial = distinct (expression, tree, context, fault position) tuples in which a machine was built, ran, made at least one data-tree callback and the injected fault actually fired.",
+		Rule:        "A case = (expression string, simulated data tree, context node) drawn from one tape: 60% grammar-directed tree-aware expressions, 30% the same damaged by byte/token operators, 10% raw byte/token strings; for a quarter of the cases every prefix of the expression (the text ending at every byte) is offered to all five constructors as well. The string is offered to all five machine constructors (expr, expr+custom functions, path_eval, path_eval+custom+user checker, leafref) with nil / working / failing prefix-map callbacks. Every machine that builds is run fault-free against the FaultTree to learn N = number of data-tree callbacks, then once per k in 1..N with exactly the k-th callback failing (exhaustive single-fault enumeration for that case), then with tape-drawn multi-fault sets. distinct_nontrivial = distinct (expression, tree, context, fault position) tuples in which a machine was built, ran, made at least one data-tree callback and the injected fault actually fired.",
 		DistinctSet: "faulted_runs",
 		Assumptions: []string{
 			"FaultTree is a well-behaved xpath.Entry: a failing call returns (nil, error); it never returns (nil, nil) or a nil Datum",
@@ -46,7 +46,7 @@ func (world) Describe() super.Description {
 			"real": []string{"xpath (lexer, ProgBuilder, context.Run, Result, Datum)", "xpath/grammars/expr", "xpath/grammars/path_eval", "xpath/grammars/leafref (parser generated at check time)", "xpath/xutils"},
 			"stub": []string{"faulttree (xpath.Entry)", "tiny XpathNode tree", "PfxMapFn", "UserCustomFunctionCheckerFn", "two registered custom functions"},
 		},
-		FaultKinds: []string{"Navigate", "GetValue", "FollowLeafRef", "BreadthSearch", "mapFn-error", "natural-notfound", "natural-leafref", "ctx-cancelled"},
+		FaultKinds: []string{"truncate", "Navigate", "GetValue", "FollowLeafRef", "BreadthSearch", "mapFn-error", "natural-notfound", "natural-leafref", "ctx-cancelled"},
 		Extra: map[string]any{
 			"exhaustive_over":    "single-fault positions 1..N of every sampled (machine, tree, context)",
 			"unreachable_at_pin": "BreadthSearch: no lexer emits COUNTFUNC, so the Count() instruction (the only BreadthSearch / goctx user) cannot be compiled from any input; count(...) compiles to the built-in function. Its fault kind therefore fires 0 times.",
@@ -357,6 +357,33 @@ func (world) RunCase(t *tape.Tape, st *super.Stats) *super.Violation {
 				return "", fmt.Errorf("SIMFAULT-mapFn-%d", mapCalls)
 			}
 			return "urn:" + pfx, nil
+		}
+	}
+
+	// every way the expression can END: all prefixes through all constructors (build oracle only)
+	if t.Rare(4) && len(s) <= 200 {
+		inc("prefix_sweeps")
+		for cut := 0; cut < len(s); cut++ {
+			ps := s[:cut]
+			for _, gr := range grammars {
+				o := safeBuild(gr, ps, nil)
+				inc("build:calls")
+				inc("fault:truncate")
+				if o.panicked {
+					return &super.Violation{Class: "panic-escaped", Sig: "panic-escaped|build|" + o.pframe,
+						Detail: fmt.Sprintf("building a %s machine panicked: %s\nexpression (prefix of %q): %q", gr.name, clip(o.pval, 300), s, ps)}
+				}
+				if (o.m == nil) == (o.err == nil) {
+					return &super.Violation{Class: "both-or-neither", Sig: "both-or-neither|build|" + gr.name,
+						Detail: fmt.Sprintf("%s constructor returned machine=%v err=%v\nexpression: %q", gr.name, o.m != nil, o.err, ps)}
+				}
+				if o.err != nil && len(ps) > 0 {
+					if ok, why := quoted(o.err.Error(), ps); !ok {
+						return &super.Violation{Class: "error-not-quoting", Sig: "error-not-quoting|build|" + gr.name,
+							Detail: fmt.Sprintf("%s: %s\nerror text: %q\nexpression: %q", gr.name, why, o.err.Error(), ps)}
+					}
+				}
+			}
 		}
 	}
 
